@@ -285,11 +285,15 @@ package readline
 //@   requires fullok(rl)
 //@   ensures [keeps-invariant] fullok(rl)
 
+// backward-kill-word / unix-word-rubout (C16): whatever the tokenizer says the word is, what is cut is what is
+// stored, and the cursor is left where the removed text began (Line.Backward never moves forward).
 //@ func (*Shell).backwardKillWord
-//@   props C01
+//@   props C16 C01
 //@   terminates
 //@   requires fullok(rl)
+//@   let n0 = len(*rl.line)
 //@   ensures [keeps-structure] fullok0(rl)
+//@   ensures @C16 [P1P2] old(plainsel(rl)) && !old(rl.Buffers.selected) ==> killyank(rl, n0)
 
 //@ func (*Shell).backwardShellWord
 //@   props C01
